@@ -4,7 +4,7 @@ from .c02 import project
 
 PROP = 'C07'
 PREDICATE = 'C07'
-LEAN_TARGETS = ['LLTD.Props.C07', 'LLTD.Props.C07H']
+LEAN_TARGETS = ['LLTD.Props.C07', 'LLTD.Props.C07H', 'LLTD.Props.C07T']
 VARIANT = 'plain'
 RULE = ('histories with k in {0,1,maxD-1,maxD,maxD+1,2maxD+3,300,random} distinct Probe/Train observations (maxD = (MTU-34)/20) plus '
         'duplicates, frames for other stations and near-collision sources, interleaved Discover (same / changed / zero generation, either service)/Emit/QueryLargeTlv, followed by Queries '
